@@ -21,6 +21,11 @@ import (
 
 type threadKilled struct{}
 
+type atExitKey struct{ t *gthread }
+
+// readerSide keys the clock that RUnlock releases into (read by Lock, not by RLock)
+type readerSide struct{ ls *lockState }
+
 var schedDebug = os.Getenv("SYMGO_SCHED_DEBUG") != ""
 
 type sendOffer struct {
@@ -67,6 +72,7 @@ type scheduler struct {
 	fatal    any
 	steps    int
 	maxSteps int
+	rs       *raceState
 }
 
 func newScheduler(in *interpreter, preempts int) *scheduler {
@@ -184,6 +190,7 @@ func (s *scheduler) spawn(fn value, args []value) {
 	in := s.in
 	t := &gthread{id: len(s.threads), wake: make(chan bool, 1), sentIdx: -1}
 	s.threads = append(s.threads, t)
+	s.hbFork(t)
 	go func() {
 		if ok := <-t.wake; !ok {
 			return
@@ -342,6 +349,7 @@ func (s *scheduler) recvReady(ch chan value, cs *chanState) bool {
 
 // doSend performs a send that is ready.
 func (s *scheduler) doSend(ch chan value, cs *chanState, v value) {
+	s.hbRelease(ch)
 	if cs.closed {
 		panic(targetPanic{iface{s.in.runtimeErrorString, "send on closed channel"}})
 	}
@@ -355,6 +363,7 @@ func (s *scheduler) doSend(ch chan value, cs *chanState, v value) {
 
 // doRecv performs a receive that is ready.
 func (s *scheduler) doRecv(ch chan value, cs *chanState) (value, bool) {
+	s.hbAcquire(ch)
 	if len(cs.buf) > 0 {
 		v := cs.buf[0]
 		cs.buf = cs.buf[1:]
@@ -375,6 +384,7 @@ func (s *scheduler) send(ch chan value, v value) {
 	}
 	cs := s.chanOf(ch)
 	cur := s.cur
+	s.hbRelease(ch)
 	s.yieldOffering(func() bool { return cur.sentIdx >= 0 || s.sendReady(ch, cs) }, nil, []sendOffer{{ch, v, 0}})
 	if cur.sentIdx >= 0 {
 		cur.sentIdx = -1 // a receiver took the value while we were parked
@@ -393,6 +403,7 @@ func (s *scheduler) recv(ch chan value) (value, bool) {
 	if cur.got != nil {
 		v := cur.got.v
 		cur.got = nil
+		s.hbAcquire(ch)
 		return v, true
 	}
 	return s.doRecv(ch, cs)
@@ -404,6 +415,7 @@ func (s *scheduler) closeChan(ch chan value) {
 	if cs.closed {
 		panic(targetPanic{iface{s.in.runtimeErrorString, "close of closed channel"}})
 	}
+	s.hbRelease(ch)
 	cs.closed = true
 }
 
@@ -448,6 +460,9 @@ func (s *scheduler) selectStmt(fr *frame, instr *ssa.Select) value {
 		}
 		return out
 	}
+	for _, offer := range sendOn {
+		s.hbRelease(offer.ch)
+	}
 	if instr.Blocking {
 		s.yieldOffering(func() bool { return cur.got != nil || cur.sentIdx >= 0 || len(ready()) > 0 }, recvOn, sendOn)
 	} else {
@@ -464,6 +479,7 @@ func (s *scheduler) selectStmt(fr *frame, instr *ssa.Select) value {
 			}
 		}
 		recv, recvOk = cur.got.v, true
+		s.hbAcquire(cur.got.ch)
 		cur.got = nil
 	case cur.sentIdx >= 0:
 		chosen = cur.sentIdx
@@ -503,11 +519,16 @@ func (s *scheduler) selectStmt(fr *frame, instr *ssa.Select) value {
 func (s *scheduler) lock(ls *lockState) {
 	s.yield(func() bool { return !ls.writer && ls.readers == 0 })
 	ls.writer = true
+	// a writer is ordered after earlier writers and earlier readers
+	s.hbAcquire(ls)
+	s.hbAcquire(readerSide{ls})
 }
 
 func (s *scheduler) rlock(ls *lockState) {
 	s.yield(func() bool { return !ls.writer })
 	ls.readers++
+	// a reader is ordered after earlier writers only - not after other readers
+	s.hbAcquire(ls)
 }
 
 func (s *scheduler) wgCounter(c *value) *int {
@@ -526,8 +547,15 @@ func init() {
 		if strings.Contains(k, "sync/atomic") {
 			f := f
 			externals[k] = func(fr *frame, args []value) value {
-				if s := fr.i.sch; s != nil && s.preempts > 0 {
+				s := fr.i.sch
+				if s != nil && s.preempts > 0 {
 					s.yield(nil)
+				}
+				if s != nil && len(args) > 0 {
+					if c, ok := args[0].(*value); ok {
+						s.hbAcquire(c)
+						defer s.hbRelease(c)
+					}
 				}
 				return f(fr, args)
 			}
@@ -550,6 +578,9 @@ func init() {
 		}
 		in.sch.yield(nil)
 		n := in.sch.wgCounter(cell(args[0]))
+		if asInt64(args[1]) < 0 {
+			in.sch.hbRelease(cell(args[0]))
+		}
 		*n += int(asInt64(args[1]))
 		if *n < 0 {
 			panic(targetPanic{iface{in.runtimeErrorString, "sync: negative WaitGroup counter"}})
@@ -566,6 +597,7 @@ func init() {
 		}
 		n := in.sch.wgCounter(cell(args[0]))
 		in.sch.yield(func() bool { return *n == 0 })
+		in.sch.hbAcquire(cell(args[0]))
 		return nil
 	}
 	externals["(*sync.WaitGroup).Go"] = func(fr *frame, args []value) value {
@@ -588,6 +620,7 @@ func (s *scheduler) spawnWithExit(fn value, atExit func()) {
 	in := s.in
 	t := &gthread{id: len(s.threads), wake: make(chan bool, 1), sentIdx: -1}
 	s.threads = append(s.threads, t)
+	s.hbFork(t)
 	go func() {
 		if ok := <-t.wake; !ok {
 			return
@@ -608,6 +641,7 @@ func (s *scheduler) spawnWithExit(fn value, atExit func()) {
 					}
 				}
 			} else {
+				s.hbRelease(atExitKey{t})
 				atExit()
 			}
 			s.exitThread(t)
@@ -616,4 +650,167 @@ func (s *scheduler) spawnWithExit(fn value, atExit func()) {
 		call(in, nil, 0, fn, nil)
 	}()
 	s.yield(nil)
+}
+
+// ---- happens-before race detection --------------------------------------------------
+//
+// While more than one goroutine exists, every load and store of a heap cell, every map
+// operation and every in-place append is checked against the happens-before order induced
+// by the synchronisation operations (go, lock/unlock, channel send/receive/close,
+// WaitGroup, Once, atomics): two accesses to the same cell by different goroutines, at least
+// one of them a write, that are not ordered are a data race - whether or not the explored
+// schedule put them next to each other.
+
+type vclock []int
+
+func (v vclock) get(i int) int {
+	if i < len(v) {
+		return v[i]
+	}
+	return 0
+}
+
+func joinVC(a, b vclock) vclock {
+	n := len(a)
+	if len(b) > n {
+		n = len(b)
+	}
+	out := make(vclock, n)
+	for i := range out {
+		out[i] = a.get(i)
+		if b.get(i) > out[i] {
+			out[i] = b.get(i)
+		}
+	}
+	return out
+}
+
+type raceCell struct {
+	wT, wC int // last write: goroutine and its clock (wT < 0: none)
+	wPos   string
+	reads  vclock // last read clock per goroutine
+	rPos   []string
+}
+
+type raceState struct {
+	vcs   map[*gthread]vclock
+	objs  map[any]vclock
+	cells map[any]*raceCell
+}
+
+func (s *scheduler) race() *raceState {
+	if s.rs == nil {
+		s.rs = &raceState{vcs: map[*gthread]vclock{}, objs: map[any]vclock{}, cells: map[any]*raceCell{}}
+	}
+	return s.rs
+}
+
+func (s *scheduler) vcOf(t *gthread) vclock {
+	rs := s.race()
+	v := rs.vcs[t]
+	if v == nil {
+		v = make(vclock, t.id+1)
+		v[t.id] = 1
+		rs.vcs[t] = v
+	}
+	return v
+}
+
+func (s *scheduler) tick(t *gthread) {
+	v := s.vcOf(t)
+	for len(v) <= t.id {
+		v = append(v, 0)
+	}
+	v[t.id]++
+	s.race().vcs[t] = v
+}
+
+// hbRelease: what the running goroutine did so far happens before whoever acquires obj later.
+func (s *scheduler) hbRelease(obj any) {
+	if len(s.threads) < 2 {
+		return
+	}
+	rs := s.race()
+	rs.objs[obj] = joinVC(rs.objs[obj], s.vcOf(s.cur))
+	s.tick(s.cur)
+}
+
+func (s *scheduler) hbAcquire(obj any) {
+	if len(s.threads) < 2 {
+		return
+	}
+	rs := s.race()
+	if o := rs.objs[obj]; o != nil {
+		rs.vcs[s.cur] = joinVC(s.vcOf(s.cur), o)
+	}
+}
+
+func (s *scheduler) hbFork(child *gthread) {
+	rs := s.race()
+	parent := s.vcOf(s.cur)
+	c := append(vclock{}, parent...)
+	for len(c) <= child.id {
+		c = append(c, 0)
+	}
+	c[child.id] = 1
+	rs.vcs[child] = c
+	s.tick(s.cur)
+}
+
+func (s *scheduler) access(key any, write bool) {
+	if len(s.threads) < 2 || s.in.runningEnsure {
+		return
+	}
+	rs := s.race()
+	t := s.cur
+	vc := s.vcOf(t)
+	c := rs.cells[key]
+	if c == nil {
+		c = &raceCell{wT: -1}
+		rs.cells[key] = c
+	}
+	pos := ""
+	conflict := func(kind, otherPos string, other int) {
+		if pos == "" {
+			pos = s.in.curPos()
+		}
+		s.in.path.fail("race", fmt.Sprintf("data race: %s at %s by goroutine %d is not ordered with the access at %s by goroutine %d", kind, pos, t.id, otherPos, other), "race:"+pos, s.in.path.anyModel())
+		panic(pathDone{})
+	}
+	if c.wT >= 0 && c.wT != t.id && c.wC > vc.get(c.wT) {
+		k := "read"
+		if write {
+			k = "write"
+		}
+		conflict(k+" after an unordered write", c.wPos, c.wT)
+	}
+	if write {
+		for u, rc := range c.reads {
+			if u != t.id && rc > vc.get(u) {
+				conflict("write after an unordered read", c.rPos[u], u)
+			}
+		}
+		c.wT, c.wC, c.wPos = t.id, vc.get(t.id), s.in.curPos()
+		c.reads, c.rPos = nil, nil
+		return
+	}
+	for len(c.reads) <= t.id {
+		c.reads = append(c.reads, 0)
+		c.rPos = append(c.rPos, "")
+	}
+	c.reads[t.id] = vc.get(t.id)
+	c.rPos[t.id] = s.in.curPos()
+}
+
+// raceAccess is called by the interpreter for loads and stores of heap cells.
+func (in *interpreter) raceAccess(addr *value, write bool) {
+	if in.sch != nil && addr != nil {
+		in.sch.access(addr, write)
+	}
+}
+
+func (in *interpreter) raceAccessMap(m *omap, write bool) {
+	if in.sch != nil && m != nil {
+		in.sch.access(m, write)
+	}
 }
